@@ -111,6 +111,25 @@ func genC16(seed uint64, tier string, prop string) Case {
 		}
 		return c
 	}
+	if prop == "C18" && r.chance(1, 6) {
+		// several clients destroy the same swamp at the same simulated instant while others write to it again
+		c.Ops = []Op{{C: 0, K: "set", A: []int64{0, 0}}, {C: 0, K: "set", A: []int64{0, 0}}}
+		for cl := 1; cl < 3+r.intn(3); cl++ {
+			kind := []string{"destroy", "destroy", "set", "get"}[r.intn(4)]
+			if cl <= 2 {
+				kind = "destroy"
+			}
+			c.Ops = append(c.Ops, Op{C: cl, K: kind, A: []int64{500, 0, int64(r.intn(3))}})
+			if r.chance(1, 2) {
+				c.Ops = append(c.Ops, Op{C: cl, K: []string{"set", "get", "destroy"}[r.intn(3)], A: []int64{int64(r.intn(3)), 0, int64(r.intn(3))}})
+			}
+		}
+		c.Sched = genSched(r)
+		if c.Sched.PreemptPPM < 30_000 {
+			c.Sched.PreemptPPM = 100_000
+		}
+		return c
+	}
 	if prop == "C18" && r.chance(1, 2) {
 		// burst shape: the swamp is written once, left alone until it has been idle-evicted, and then every client
 		// fires at the same simulated instant (live and cancelled contexts mixed), so that several summons meet
@@ -503,6 +522,13 @@ func runC16(t *testing.T, c Case) (res Result) {
 	}
 	res.count("max_live_instances", maxLive)
 	if c.Prop == "C18" {
+		for _, n := range simrt.ProbeNames() {
+			if strings.HasPrefix(n, "swamp_live:") && simrt.ProbeMin(n) < 0 {
+				// more close reports than constructions: one instance reported its close twice - the registry then
+				// drops whatever instance stands under that name at the time of the second report
+				return fail(violation("instance_reported_closed_more_than_once", "%s: the close callback ran more often than instances were constructed (counter reached %d)", n, simrt.ProbeMin(n)))
+			}
+		}
 		if maxLive > 1 {
 			return fail(violation("two_live_instances", "%s reached %d constructed-but-not-closed swamp objects at once", liveName, maxLive))
 		}
@@ -598,7 +624,9 @@ func runC16(t *testing.T, c Case) (res Result) {
 							// vigil preceded the destroy is waited for, and what it stores has to be kept
 							why = "although_its_vigil_preceded_the_auto_destroy_of_the_emptied_swamp"
 						}
-					case r.kind == "stop":
+					case r.kind == "stop" && why == "":
+						// (only if no emptying removal overlapped the write as well: the shutdown drains in-flight
+						// requests first, so a removal that auto-destroys the swamp under the write is the likelier cause)
 						why = "concurrent_graceful_stop"
 					}
 				}
